@@ -1,6 +1,7 @@
 #!/bin/sh
 # tools/soak.sh <first_seed> <last_seed> : run every check's quick tier under many seeds (unchanged tree must stay quiet)
 cd "$(dirname "$0")/.."
+[ -n "$VP_RUN_REPO" ] && export VERIF_REPO="$VP_RUN_REPO"
 ./vcheck setup >/dev/null 2>&1
 for s in $(seq $1 $2); do
   for p in C01 C02 C03 C04 C05 C06 C07 C08 C09 C10 C11 C12 C13 C14 C15 C16 C17 C18 C19 C20; do
